@@ -19,6 +19,15 @@ RULES=[ # (property, key regex, commit subject prefix, what)
  ('C12', r'no-operand-alias-in-result:sbom\.\(\*NodeList\)\.Intersect#', 'fix: Intersect result shared', 'Intersect result shared attribute lists with its second operand (and edge targets through shallow Edge copies)'),
  ('C13', r'encode-exhaustive:sbom\.\(\*ExternalReference\)\.flatString#Hashes', 'fix: ExternalReference equality', 'ExternalReference.flatString ignored Hashes: references differing only in hashes compared equal'),
  ('C14', r'encode-exhaustive:sbom\.\(\*ExternalReference\)\.flatString#Hashes', 'fix: ExternalReference equality', 'a difference only in an external reference\'s hashes was not reported by Diff'),
+ ('C04', r'absent-part-guard:unserializers\.\(\*CDX\)\.licenseChoicesToLicense(List|String)#lc\.License', 'fix: CycloneDX reader panicked', 'a licence choice without a licence object ({} or {"expression":""}) dereferenced the nil License pointer'),
+ ('C04', r'absent-part-guard:unserializers\.\(\*SPDX23\)\.(Unserialize#[fp]|packageToNode#r)$', 'fix: SPDX reader panicked', 'null entries in files / packages / externalRefs reached fileToNode / packageToNode / extRefToProtobomEnum as nil pointers'),
+ ('C07', r'absent-part-guard:(serializers\.\(\*CDX\)\.|serializers\.sbomTypeToPhase)', 'fix: CycloneDX serializer panicked', 'CycloneDX Serialize dereferenced absent metadata / node list / document-type name / nil list entries'),
+ ('C07', r'absent-part-guard:sbom\.\(\*NodeList\)\.GetNodeByID', 'fix: GetNodeByID panicked', 'GetNodeByID dereferenced a nil node entry'),
+ ('C07', r'absent-part-guard:(serializers\.\(\*SPDX23\)\.|serializers\.build)', 'fix: SPDX 2.3 serializer panicked', 'SPDX 2.3 Serialize/Render dereferenced an absent node list, nil list entries, nil render options, and asserted the native document type without comma-ok'),
+ ('C07', r'absent-part-guard:beta\.', 'fix: SPDX 3 serializer panicked', 'SPDX 3 Serialize/Render dereferenced a nil document, an absent node list, nil list entries and nil render options'),
+ ('C07', r'absent-part-guard:writer\.', 'fix: WriteStreamWithOptions panicked', 'WriteStreamWithOptions dereferenced nil options and invoked a nil serializer returned by GetFormatSerializer'),
+ ('C01', r'loop-totality:serializers\.\(\*SPDX23\)\.buildPackages/Nodes#exit:break', 'fix: SPDX 2.3 serializer dropped', 'a package with two primary purposes truncated the SPDX package list (break out of the node loop)'),
+ ('C03', r'loop-totality:serializers\.\(\*SPDX23\)\.buildPackages/Nodes#exit:break', 'fix: SPDX 2.3 serializer dropped', 'a package with two primary purposes truncated the SPDX package list (break out of the node loop)'),
  ('C09', r'self-merge:', 'fix: NodeList.Add augmented', 'Add called Augment on a node with itself: in-place add never filled empty attributes'),
  ('C08', r'removal-updates-roots:', 'fix: RemoveNodes left', 'RemoveNodes left removed identifiers in RootElements'),
 ]
